@@ -1,0 +1,43 @@
+//go:build verif
+
+/*
+ * Verification-only constructor for the variable-stack check (property C14).
+ * Nothing in this file is compiled into production binaries (build tag `verif`).
+ */
+
+package task
+
+import (
+	"fmt"
+
+	"github.com/AliceO2Group/Control/common/gera"
+	"github.com/AliceO2Group/Control/common/utils/uid"
+	"github.com/AliceO2Group/Control/core/task/channel"
+	"github.com/AliceO2Group/Control/core/task/sm"
+	"github.com/AliceO2Group/Control/core/task/taskclass"
+)
+
+// VerifVSNewTask builds a Task for parent and class with the same field initialisation as
+// Manager.newTaskForMesosOffer, without a Mesos offer and without a task manager: the class is
+// served by the closure instead of the manager's class cache.
+func VerifVSNewTask(parent parentRole, class *taskclass.Class, hostname string) (t *Task) {
+	newId := uid.New().String()
+	t = &Task{
+		name:         fmt.Sprintf("%s#%s", class.Identifier.String(), newId),
+		parent:       parent,
+		className:    class.Identifier.String(),
+		hostname:     hostname,
+		agentId:      "verif-agent",
+		offerId:      "verif-offer",
+		taskId:       newId,
+		properties:   gera.MakeMap[string, string]().Wrap(class.Properties),
+		executorId:   "verif-executor",
+		localBindMap: make(channel.BindMap),
+		state:        sm.STANDBY,
+		status:       INACTIVE,
+	}
+	t.GetTaskClass = func() *taskclass.Class {
+		return class
+	}
+	return
+}
